@@ -19,10 +19,14 @@ func (in *Inst) setResult(x *ssa.Call, v Val) {
 
 // call encodes a call instruction.
 func (in *Inst) call(x *ssa.Call, st *State) {
+	in.callAsserts(x, st, false)
+	in.callInner(x, st)
+	in.callAsserts(x, st, true)
+}
+
+func (in *Inst) callInner(x *ssa.Call, st *State) {
 	e := in.e
 	c := &x.Call
-	in.callAsserts(x, st, false)
-	defer in.callAsserts(x, st, true)
 	if b, ok := c.Value.(*ssa.Builtin); ok {
 		in.builtin(x, b, st)
 		return
@@ -92,7 +96,7 @@ func (in *Inst) call(x *ssa.Call, st *State) {
 		// abstract mode keeps queries small: a callee is inlined only when it can affect the ghost
 		// state (it contains, transitively, a call named in the contract's assert/ghostset clauses or a
 		// call of a ghost-relevant contract); everything else is an unknown call
-		if e.W.abstractRelevant(callee, e.top.con, 0, map[*ssa.Function]bool{}) && !in.recursive(callee) && in.depth < 6 {
+		if !e.top.con.NoInline && e.W.abstractRelevant(callee, e.top.con, 0, map[*ssa.Function]bool{}) && !in.recursive(callee) && in.depth < 6 {
 			rs := in.inline(callee, args, nil, st, x.Pos())
 			in.setResult(x, in.packResults(rs, x.Type()))
 			return
@@ -421,6 +425,22 @@ func (in *Inst) joinReturns(sub *Inst, fn *ssa.Function, st *State) []Val {
 // Defer
 // ---------------------------------------------------------------------------
 
+// initDefers: every defer site of the function starts unregistered.
+func (in *Inst) initDefers(st *State) {
+	e := in.e
+	for _, b := range in.fn.Blocks {
+		for _, ins := range b.Instrs {
+			if d, ok := ins.(*ssa.Defer); ok {
+				ds := &deferSite{instr: d, inst: in}
+				ds.flag = fmt.Sprintf("L:%s!defer%d", in.prefix, len(e.deferSites))
+				e.regComp(ds.flag, "Bool")
+				st.set(ds.flag, "false")
+				e.deferSites = append(e.deferSites, ds)
+			}
+		}
+	}
+}
+
 func (in *Inst) deferInstr(x *ssa.Defer, st *State) {
 	e := in.e
 	for _, lp := range in.loops {
@@ -428,20 +448,26 @@ func (in *Inst) deferInstr(x *ssa.Defer, st *State) {
 			e.fail("defer inside a loop in %s", in.fn.Name())
 		}
 	}
-	ds := &deferSite{instr: x, inst: in}
-	ds.flag = fmt.Sprintf("L:%s!defer%d", in.prefix, len(e.deferSites))
-	e.regComp(ds.flag, "Bool")
+	var ds *deferSite
+	for _, d := range e.deferSites {
+		if d.inst == in && d.instr == x {
+			ds = d
+		}
+	}
+	if ds == nil {
+		e.fail("unregistered defer site")
+	}
 	c := &x.Call
 	if c.IsInvoke() {
 		ds.fnVal = in.val(c.Value, st)
 	} else if _, ok := c.Value.(*ssa.Builtin); !ok {
 		ds.fnVal = in.val(c.Value, st)
 	}
+	ds.args = nil
 	for _, a := range c.Args {
 		ds.args = append(ds.args, in.val(a, st))
 	}
 	st.set(ds.flag, "true")
-	e.deferSites = append(e.deferSites, ds)
 }
 
 // retIndex: source-order index of a return instruction of fn.
@@ -494,7 +520,54 @@ func (in *Inst) runDefers(st *State) {
 	}
 }
 
+// deferredClauses: assert/ghostset clauses that name a deferred call apply when it runs.
+func (in *Inst) deferredClauses(ds *deferSite, st *State, after bool) {
+	top := in.e.top
+	if top == nil || top.con == nil || st.reach == "false" {
+		return
+	}
+	name := calleeName(&ds.instr.Call)
+	con := top.con
+	blk := in.e.curBlk
+	for i, ca := range con.Asserts {
+		if ca.Callee != name || ca.After != after || ca.Ordinal >= 0 {
+			continue
+		}
+		env := top.newEnv(st)
+		if blk != nil {
+			env.atBlock = blk
+			env.atIdx = len(blk.Instrs)
+		}
+		t := top.specBool(ca.Clause.Expr, env)
+		when := "before"
+		if after {
+			when = "after"
+		}
+		site := "deferred"
+		if in.e.curRet >= 0 {
+			site += fmt.Sprintf("@ret%d", in.e.curRet)
+		}
+		o := in.e.oblige("assert", fmt.Sprintf("%s:%s#%s/%d", when, name, site, i), ds.instr.Pos(), st.reach, t)
+		o.Top = true
+		o.Prop = ca.Clause.Prop
+	}
+	for _, gu := range con.Ghosts {
+		if gu.Callee != name || gu.Ordinal >= 0 || gu.Before == after {
+			continue
+		}
+		env := top.newEnv(st)
+		if blk != nil {
+			env.atBlock = blk
+			env.atIdx = len(blk.Instrs)
+		}
+		v := env.eval(gu.Expr)
+		top.ghostAssign(gu, env, v, st)
+	}
+}
+
 func (in *Inst) deferredCall(ds *deferSite, st *State) {
+	in.deferredClauses(ds, st, false)
+	defer in.deferredClauses(ds, st, true)
 	e := in.e
 	c := &ds.instr.Call
 	if b, ok := c.Value.(*ssa.Builtin); ok {
@@ -894,6 +967,7 @@ func (in *Inst) callAssertsOf(con *Contract, inherited bool, x *ssa.Call, st *St
 		env := in.newEnv(st)
 		env.atBlock = x.Block()
 		env.atIdx = instrIndex(x)
+		in.bindCallArgs(env, x, st)
 		if after {
 			env.atIdx++
 			if v, ok := in.vals[x]; ok {
@@ -914,6 +988,7 @@ func (in *Inst) callAssertsOf(con *Contract, inherited bool, x *ssa.Call, st *St
 		}
 		o := in.e.oblige("assert", fmt.Sprintf("%s:%s#%s/%d", when, name, site, i), x.Pos(), st.reach, t)
 		o.Top = true
+		o.Prop = ca.Clause.Prop
 	}
 	for _, gu := range con.Ghosts {
 		if gu.Callee != name || (gu.Ordinal >= 0 && gu.Ordinal != ord) || gu.Before == after {
@@ -922,10 +997,16 @@ func (in *Inst) callAssertsOf(con *Contract, inherited bool, x *ssa.Call, st *St
 		env := in.newEnv(st)
 		env.atBlock = x.Block()
 		env.atIdx = instrIndex(x)
+		in.bindCallArgs(env, x, st)
 		if after {
 			env.atIdx++
 			if v, ok := in.vals[x]; ok {
 				env.vars["result"] = v
+				if v.K == KStruct {
+					for i, f := range v.Fs {
+						env.vars[fmt.Sprintf("result%d", i)] = f
+					}
+				}
 			}
 		}
 		v := env.eval(gu.Expr)
@@ -1149,4 +1230,25 @@ func (w *World) abstractRelevant(fn *ssa.Function, top *Contract, depth int, see
 		}
 	}
 	return false
+}
+
+// bindCallArgs: arg0, arg1, ... denote the call's operands (receiver first for interface calls).
+func (in *Inst) bindCallArgs(env *SpecEnv, x *ssa.Call, st *State) {
+	k := 0
+	if x.Call.IsInvoke() {
+		if v, ok := in.vals[x.Call.Value]; ok {
+			env.vars["arg0"] = v
+		}
+		k = 1
+	}
+	for i, a := range x.Call.Args {
+		func() {
+			defer func() { recover() }()
+			v := in.val(a, st)
+			if v.Ty == nil {
+				v.Ty = a.Type()
+			}
+			env.vars[fmt.Sprintf("arg%d", i+k)] = v
+		}()
+	}
 }
